@@ -141,6 +141,7 @@ def rule_ms(ctx: Ctx):
     r1.instances += 1
     r3.instances += 1
     grow_paths = 0
+    saw_mapper = False
     for p in paths:
         r1.paths += 1
         r3.paths += 1
@@ -219,6 +220,7 @@ def rule_ms(ctx: Ctx):
         dflt = [e for e in p.trace if e.k == "decision" and any(x == ("attr", SELF, "default_value") for x in subterms(e.test))]
         mapper = [e for e in p.trace if e.k == "decision" and any(x == ("attr", SELF, "is_mapper") for x in subterms(e.test))]
         if mapper and mapper[0].outcome:
+            saw_mapper = True
             r3.ob(len(vals) == 1 and vals[0].value == ("dict",) and _key0(vals[0].index), lambda: _f(
                 "MS-3", "add_key{mapper}", mm, fn, "a mapper slot must start as an empty dict at index key[0]", trace_of(p)))
         elif dflt and _dflt_present(dflt[0]):
@@ -227,6 +229,9 @@ def rule_ms(ctx: Ctx):
         else:
             r3.ob(not vals, lambda: _f("MS-3", "add_key{no-default}", mm, fn, "without default the value must stay unwritten (NOTSET)", trace_of(p)))
     r1.ob(grow_paths > 0, lambda: _f("MS-1", "add_key{growth}", mm, fn, "add_key no longer grows the arrays"))
+    r3.ob(saw_mapper, lambda: _f("MS-3", "add_key{mapper}", mm, fn,
+                                 "add_key has no path for mapper stores: a mapper slot must start as a dict created by this very call (a dict kept in the store "
+                                 "object, e.g. as its default value, is shared by every index and survives del_key / add_key)"))
 
     # ---------------- MS-2: all writers ------------------------------------
     writers = ["add_key", "del_key", "set", "add_map"]
@@ -620,6 +625,22 @@ def rule_ms7(ctx: Ctx) -> RuleResult:
     r.ob(n_yield >= 1, lambda: _f("MS-7", "iterate{yield}", mm, fn, "iterate has no path that yields a live slot"))
     r.require_instances(3)
     return r
+
+
+def rule_ms_states(ctx: Ctx):
+    """The MemoryStore obligations that concern plain per-key states (add_key / set / get / del_key, growth, typecodes): what roll,
+    split and time_split rely on.  The obligations about group-index maps (mapper stores, add_map / get_map / iterate_map, the index
+    allocator) are not theirs: a defect there is group_by's (C04) and the store's (C14)."""
+    out = []
+    for r in rule_ms(ctx):
+        if r.rule == "MS-4":
+            continue
+        kept = [f for f in r.findings if "mapper" not in f.construct and "_map" not in f.construct and "new_index" not in f.construct]
+        dropped = len(r.findings) - len(kept)
+        r.findings = kept
+        r.discharged += dropped
+        out.append(r)
+    return out
 
 
 RULES = [rule_ms, rule_ms6, rule_ms7]
